@@ -119,6 +119,8 @@ PLAIN = {'id', 'len', 'int', 'str', 'dict', 'list', 'set', 'bool', 'range', 'zip
          'None', 'True', 'False'}
 GLOBAL_VARS = {'_in_memory_results': ('box', 'VRegistry')}
 
+ENV_DECLARED = set(ENV)
+
 LOCKS = {('res', 'self._lock'): 'LStudy', ('evo', 'self._lock'): 'LAlgo', ('be', '_in_memory_lock'): 'LReg'}
 EXNS = {'StopIteration': 'XStop', 'RaceConditionError': 'XRace', 'ValueError': 'XValue'}
 
@@ -382,6 +384,14 @@ class Footprint:
         for a in args: self.expr(a)
         return 'val'
       m = METHODS.get((bk, f.attr)) or (METHODS.get(('alg', f.attr)) if bk == 'evo' else None)
+      if m is None and bk in CLASSES and ('%s.%s' % (bk, f.attr)) in self.tr.src.funcs:
+        # a helper method of an anchored class that has no table entry (e.g. extracted from a known method): inline it;
+        # its parameters get the kinds of the arguments at this call site, its statements are looked up by text
+        hq = '%s.%s' % (bk, f.attr)
+        akinds = [self.kind(a_, load=True) if isinstance(a_, (ast.Name, ast.Attribute, ast.Subscript, ast.Call)) else (self.expr(a_) or 'val') for a_ in e.args]
+        kkinds = {k.arg: (self.kind(k.value, load=True) if isinstance(k.value, (ast.Name, ast.Attribute, ast.Subscript, ast.Call)) else (self.expr(k.value) or 'val')) for k in e.keywords}
+        self.tr.declare_helper(hq, bk, akinds, kkinds, e, q)
+        self.calls.append(('inline', hq, e)); return 'val'
       if m is None:
         bad('unknown method %s.%s' % (bk, f.attr), e, q)
       if m[0] == 'inline':
@@ -481,8 +491,39 @@ class Translator:
     self.src = Source(repo)
     self._summaries = {}
     self._fresh = {}
+    self._helpers = set()
+    for k in list(ENV):
+      if k not in ENV_DECLARED: del ENV[k]
     self.progs = []          # per entry: list of act dicts
     self.assumptions = []
+
+  # -- helper methods without table entries ---------------------------------------------------------------------------
+  def declare_helper(self, hq, tag, akinds, kkinds, node, caller):
+    fkey, fn = self.src.func(hq)
+    if fn.args.vararg or fn.args.kwarg or fn.decorator_list:
+      bad('helper %s has a decorator or star-arguments' % hq, node, caller)
+    params = [a.arg for a in fn.args.args]
+    env = {params[0]: tag} if params else {}
+    for name, k in zip(params[1:], akinds):
+      if k not in ('val',): env[name] = k
+    for name, k in kkinds.items():
+      if name in params and k not in ('val',): env[name] = k
+    # locals assigned from an expression of a known kind (two rounds are enough for chains of length two)
+    for _ in range(2):
+      for n in ast.walk(fn):
+        if isinstance(n, ast.Assign) and len(n.targets) == 1 and isinstance(n.targets[0], ast.Name) and isinstance(n.value, (ast.Name, ast.Attribute)):
+          ENV[hq] = env
+          try:
+            k = Footprint(self, hq).kind(n.value, load=False)
+          except Untranslatable:
+            k = 'val'
+          if k not in ('val', 'box', 'cnt', 'fn', 'op', 'lock'):
+            env[n.targets[0].id] = k
+    old = ENV.get(hq) if hq in self._helpers else None
+    if old is not None and old != env:
+      bad('helper %s is called with arguments of different kinds' % hq, node, caller)
+    ENV[hq] = env
+    self._helpers.add(hq)
 
   # -- locals that only ever hold a container created in the function itself (`x = set()`, `x = []`, `x = list(...)`) --------
   def fresh_locals(self, qual):
@@ -611,11 +652,11 @@ class Translator:
         self.emit(False, ('Release', lref), None, 'end of with %s' % ltxt)
       elif isinstance(s, ast.If):
         ttxt = ast.unparse(s.test)
-        cnd = CONDS.get((qual, ttxt))
+        cnd = _lookup(CONDS, qual, ttxt)
         s_body, s_orelse = s.body, s.orelse
         if cnd is None and isinstance(s.test, ast.UnaryOp) and isinstance(s.test.op, ast.Not):
           # `if not X: A else: B` with a known X is `if X: B else: A`
-          cnd = CONDS.get((qual, ast.unparse(s.test.operand)))
+          cnd = _lookup(CONDS, qual, ast.unparse(s.test.operand))
           s_body, s_orelse = s.orelse, s.body
         if cnd is None:
           bad('unknown condition', s.test, qual)
@@ -654,7 +695,7 @@ class Translator:
         bad('statement shape %s not supported' % type(s).__name__, s, qual)
       else:
         fp = Footprint(self, qual).stmt(s)
-        eff = EFFECTS.get((qual, text))
+        eff = _lookup(EFFECTS, qual, text)
         if eff is None:
           for (q2, pre, e2) in EFFECT_PREFIXES:
             if q2 == qual and text.startswith(pre):
@@ -710,6 +751,19 @@ class Translator:
       if eff:
         self.emit(False, ('Stmt', [], [], eff), None, 'non-Evolution %s (outside the anchored files)' % target)
       self.place(fin)
+
+
+def _lookup(table, qual, text):
+  """(function, text) entry; for a function without own entries (a helper extracted from a known method) the entry of the
+  same text in another method of the SAME class, provided all such entries agree."""
+  v = table.get((qual, text))
+  if v is not None:
+    return v
+  if any(q == qual for (q, _) in table) or qual in ENV_DECLARED:
+    return None
+  tag = qual.split('.')[0]
+  found = {val for (q, t), val in table.items() if t == text and q.split('.')[0] == tag}
+  return found.pop() if len(found) == 1 else None
 
 
 def _is_doc(s):
